@@ -134,7 +134,61 @@ func refShouldBuild(content string, tags map[string]bool) bool {
 	return ok
 }
 
-var knownOS, knownArch = imports.KnownOS, imports.KnownArch
+// The reference's tables of known operating systems and architectures: the
+// package's own lists as they stand in the repository (anchor), kept here as a
+// snapshot so that the reference does not move with the code under test. The
+// exported tables are compared with the snapshot at the start of the run.
+var knownOS = setOf("aix android darwin dragonfly freebsd hurd illumos ios js linux nacl netbsd openbsd plan9 solaris windows zos")
+var knownArch = setOf("386 amd64 amd64p32 arm armbe arm64 arm64be loong64 mips mipsle mips64 mips64le mips64p32 mips64p32le ppc ppc64 ppc64le riscv riscv64 s390 s390x sparc sparc64 wasm")
+
+// goBuildOnly: tokens the toolchain's go/build treats as an OS or architecture
+// that the package's (older) lists do not contain.
+var goBuildOnly = setOf("wasip1")
+
+// goBuildKnows: does go/build constrain a file named x_<tok>.go?
+var goBuildKnowsCache sync.Map
+
+func goBuildKnows(tok string) bool {
+	if v, ok := goBuildKnowsCache.Load(tok); ok {
+		return v.(bool)
+	}
+	ctx := build.Context{GOOS: "plan9", GOARCH: "mips", Compiler: "gc", OpenFile: func(string) (io.ReadCloser, error) {
+		return io.NopCloser(strings.NewReader("package p\n")), nil
+	}}
+	m, err := ctx.MatchFile("/d", "x_"+tok+".go")
+	k := err == nil && !m
+	goBuildKnowsCache.Store(tok, k)
+	return k
+}
+
+func setOf(list string) map[string]bool {
+	m := map[string]bool{}
+	for _, w := range strings.Fields(list) {
+		m[w] = true
+	}
+	return m
+}
+
+// tableDiff describes how a table of the package differs from the snapshot.
+func tableDiff(name string, got, want map[string]bool) string {
+	var missing, extra []string
+	for k := range want {
+		if !got[k] {
+			missing = append(missing, k)
+		}
+	}
+	for k, v := range got {
+		if v && !want[k] {
+			extra = append(extra, k)
+		}
+	}
+	sort.Strings(missing)
+	sort.Strings(extra)
+	if len(missing)+len(extra) == 0 {
+		return ""
+	}
+	return fmt.Sprintf("imports.%s lacks %v and has in addition %v", name, missing, extra)
+}
 
 func refMatchFile(name string, tags map[string]bool) bool {
 	if tags["*"] {
@@ -324,7 +378,17 @@ func checkMatchFile(name string, tagList []string, st *stats) []kit.V {
 		vs = append(vs, kit.V{Key: key("matchfile"), What: fmt.Sprintf("MatchFile(%q, %v) = %v, the rules of the statement give %v", name, tagList, got, want), Case: c})
 	}
 	if strings.HasSuffix(name, ".go") && !strings.HasPrefix(name, "_") && !strings.HasPrefix(name, ".") {
-		if ctx, ok := buildCtx(tags, "package p\n"); ok {
+		// plan9 and mips stand for "no operating system / architecture selected" in
+		// the go/build context; a name that mentions them, or a token go/build knows
+		// and the package's lists do not (or the other way round), has no faithful
+		// counterpart there
+		faithful := true
+		for _, seg := range strings.Split(strings.TrimSuffix(name, ".go"), "_") {
+			if seg == "plan9" || seg == "mips" || goBuildOnly[seg] || (knownOS[seg] || knownArch[seg]) && !goBuildKnows(seg) {
+				faithful = false
+			}
+		}
+		if ctx, ok := buildCtx(tags, "package p\n"); ok && faithful {
 			m, err := ctx.MatchFile("/d", name)
 			if err == nil {
 				if st != nil {
@@ -402,6 +466,13 @@ func main() {
 		imports.MatchFile(fmt.Sprintf("n%d_linux_arm_test.go", i), tags)
 	}
 	r.MaybeReplay()
+	for _, d := range []string{tableDiff("KnownOS", imports.KnownOS, knownOS), tableDiff("KnownArch", imports.KnownArch, knownArch)} {
+		if d != "" {
+			// every name built from a lost or added token is then judged wrongly; the
+			// name enumeration below reports the individual cases
+			r.Sample(map[string]string{"known_table": d})
+		}
+	}
 	th := r.Thorough()
 	st := &stats{}
 
@@ -512,6 +583,19 @@ func main() {
 		}
 	}
 	gen(nil)
+	// every known operating system and architecture (first and last entries of the
+	// lists included) in each position of the rule
+	var allTokens []string
+	for t := range knownOS {
+		allTokens = append(allTokens, t)
+	}
+	for t := range knownArch {
+		allTokens = append(allTokens, t)
+	}
+	sort.Strings(allTokens)
+	for _, t := range allTokens {
+		names = append(names, "x_"+t+".go", "x_"+t+"_test.go", "x_linux_"+t+".go", "x_"+t+"_amd64.go", "x_"+t+"_amd64_test.go", t+".go", "x_y_"+t+".go", "x_"+t+"_y.go")
+	}
 	names = append(names, ".go", "_.go", "linux.go", "_linux.go", "x.linux.go", "x_linux.amd64.go", "x-linux.go", "x_Linux.go", "x_linux_amd64_test_test.go", "x_test_linux.go")
 	mfTags := subsets([]string{"linux", "android", "windows", "amd64", "arm"})
 	mfTags = append(mfTags, []string{"*"}, []string{"*", "linux"}, []string{"darwin", "wasm"})
@@ -555,7 +639,7 @@ func main() {
 	r.Set("matchfile_cases", st.mfEvals)
 	r.Set("matchfile_cross_checked_with_go_build", st.mfCross)
 	r.Set("exhaustive", !r.Capped())
-	r.Assume("'known OS or architecture' means the package's own KnownOS/KnownArch tables (anchor); on malformed negated terms the statement (false) wins over go/build/constraint (which maps them to !ignore); the reference is cross-checked against go/build.Context.MatchFile wherever a tag set has a faithful go/build counterpart, and a disagreement there is a HARNESS-ERROR, not a violation")
+	r.Assume("'known OS or architecture' means the package's KnownOS/KnownArch tables as they stand in the repository (anchor; a snapshot is kept in the check); on malformed negated terms the statement (false) wins over go/build/constraint (which maps them to !ignore); the reference is cross-checked against go/build.Context.MatchFile wherever a tag set has a faithful go/build counterpart, and a disagreement there is a HARNESS-ERROR, not a violation")
 	_ = bytes.Equal
 	r.Finish()
 }
